@@ -149,7 +149,8 @@ def run_case(case, nref=None):
         t_f = obs['t_fault'] / 1e6
         t_last = t_f + (case['stall_ms'] if fault == 'stall' else (restart or 0))
         p.run(t_last + B_MS + 3200)
-        calls = {k: p.process_calls(k) for k in sinks}
+        consumers = [n['id'] for n in nodes if n.get('sources')]       # every filter that consumes: sinks, relays, workers
+        calls = {k: p.process_calls(k) for k in consumers}
         all_calls = dict(p.calls)
         pubs = [r for r in p.publishes() if r['kind'] == 'data' and r['topic'] == '//']
         raised = [(k, e) for k, e in p.ends.items() if e['how'] == 'raised']
@@ -177,14 +178,14 @@ def run_case(case, nref=None):
                         return bad(f'{nid}#{inc} received seq {pv["seq"]} of {key[0]}#{key[1]} after seq {last[key]} (after the fault at {t_f:.0f} ms)', 'out-of-order-after-recovery', classes)
                     last[key] = max(last.get(key, -1), pv['seq'])
     # bounded liveness
-    for k in sinks:
+    for k in consumers:
         if k == victim and dead_for_good:
             continue
         ts = [r['t'] / 1e6 for r in calls[k] if r.get('in')]
         w1 = [t for t in ts if t_last < t <= t_last + B_MS]
         w2 = [t for t in ts if t_last + B_MS < t <= t_last + B_MS + 3000]
         if not w1 or not w2:
-            return bad(f'sink {k} received {len(w1)} frames within {B_MS} ms after the last fault event ({fault} of {victim} at {t_f:.0f} ms, '
+            return bad(f'{"sink" if k in sinks else "consumer"} {k} received {len(w1)} frames within {B_MS} ms after the last fault event ({fault} of {victim} at {t_f:.0f} ms, '
                        f'{"restart +" + str(restart) if fault == "kill" else "stall " + str(case["stall_ms"])} ms) and {len(w2)} in the 3 s after that; last frame at '
                        f'{max(ts) if ts else None} ms', 'no-recovery' if not w1 else 'stopped-again', classes)
     # a publisher whose required output is missing waits for it
@@ -198,7 +199,7 @@ def run_case(case, nref=None):
     nontrivial = obs['inflight'] or fault == 'stall' or dead_for_good
     if obs['inflight']:
         classes.append('messages in flight at the kill')
-    return ok(nontrivial, classes, {'t_fault_ms': round(t_f), 'kstep': kstep, 'ref_steps': nref, 'frames_after': {k: len([r for r in calls[k] if r['t'] / 1e6 > t_last]) for k in sinks}})
+    return ok(nontrivial, classes, {'t_fault_ms': round(t_f), 'kstep': kstep, 'ref_steps': nref, 'frames_after': {k: len([r for r in calls[k] if r['t'] / 1e6 > t_last]) for k in consumers}})
 
 
 def enum_cases(tier):
